@@ -13,6 +13,8 @@
  * options: mode=dt       case = (year, month): every day x 6 instants x all forms
  *          mode=dt-times case = (one of 8 days, hour): every second x 9 ms values
  *                        days=monthly: the first of every month 1901-2099 instead, whole seconds only (thorough)
+ *          mode=dt-cut   case = (year, month): every day x 6 instants x all forms x complete prefixes, parsed with the
+ *                        exact length while something else stands behind;  skipfol=name,... leaves followers out
  *          mode=range    case = (year, month) of the start
  *          mode=dur-secs case = block of 1000 s;  max=N
  *          mode=dur-days case = block of 10 d;    max=N
@@ -273,6 +275,167 @@ mode_dt_times(void)
 			vd_sh->evals += n_eval;
 			vd_sh->nontriv += n_nontriv;
 			vd_sample("dt-times: %04d-%02d-%02dT%02u:MM:SS, %ld instants", c.y, c.m, c.d, H, n_eval);
+		}
+	}
+}
+
+/* ---- instants cut out of a longer text (explicit length) ------------- */
+/* dt_strp(str, &end, len) with len != 0 is how a caller takes a stamp out of
+ * a longer text (evical.c: a value inside a line or a comma list; echse.c: an
+ * argument).  The LEN characters are the text; what stands behind them is not
+ * part of it.  So: every printed form, and every proper prefix of it that is
+ * itself a complete form (the date out of a date-time, the date-time without
+ * its fraction, the date-time without its Z), parsed with exactly that length
+ * while something else stands at str[len], is the instant the LEN characters
+ * spell. */
+/* name = --opt skipfol handle, cls = what the signature says (the character right behind the text) */
+static const struct {
+	const char *name;
+	const char *cls;
+	const char *txt;
+} fol[] = {
+	{"nul", "nul", ""}, {"T", "T", "T"}, {"blank", "blank", " "}, {"comma", "comma", ","}, {"slash", "slash", "/"}, {"Z", "Z", "Z"},
+	{"digit", "digit", "7"}, {"dot", "dot", "."}, {"colon", "colon", ":"}, {"dash", "dash", "-"}, {"plus", "plus", "+"},
+	{"tab", "tab", "\t"}, {"crlf", "cr", "\r\n"}, {"zero", "digit", "0"},
+	{"T-time-basic", "T", "T123015Z"}, {"T-time-ext", "T", "T12:30:15.789"}, {"blank-time", "blank", " 12:30:15"}, {"blank-word", "blank", " summary"},
+	{"fraction", "dot", ".789"}, {"comma-date", "comma", ",20240301"}, {"slash-date", "slash", "/2024-03-01"}, {"Z-comma", "Z", "Z,20240301T000000Z"},
+};
+#define NFOL	((int)(sizeof(fol) / sizeof(*fol)))
+enum {PK_WHOLE, PK_DATE, PK_NOFRAC, PK_NOZ, NPK};
+static const char *pkname[] = {"whole", "date-of-date-time", "without-fraction", "without-Z"};
+/* followers left out of the judgement, --opt skipfol=name,name */
+static const char *skipfol;
+
+static bool
+fol_skipped(const char *name)
+{
+	size_t n = strlen(name);
+	for (const char *p = skipfol; p && *p;) {
+		const char *e = strchr(p, ',');
+		size_t l = e ? (size_t)(e - p) : strlen(p);
+		if (l == n && !memcmp(p, name, n)) return true;
+		p = e ? e + 1 : NULL;
+	}
+	return false;
+}
+
+/* TEXT[0..LEN) spells WANT; BEHIND stands behind it */
+static void
+chk_cut1(int f, int pk, int fi, echs_instant_t x, echs_instant_t want, const char *text, size_t len, const char *behind, const char *bname)
+{
+	char buf[96];
+	char *s, *on = NULL;
+	echs_instant_t got;
+	const int kind = x.H == ECHS_ALL_DAY ? 0 : x.ms == ECHS_ALL_SEC ? 1 : 2;
+	const int id = ((f * 3 + kind) * NPK + pk) * 32 + fi;
+
+	snprintf(buf, sizeof(buf), "%.*s%s", (int)len, text, behind);
+	s = cell(buf, 0);
+	n_eval++;
+	n_nontriv++;
+	got = dt_strp(s, &on, len);
+	if (got.u != want.u) {
+		if (lv_hit(id)) {
+			int err = got.u == 0U ? 0 : got.dpart != want.dpart ? 1 : (got.H != want.H || got.M != want.M || got.S != want.S) ? 2 : 3;
+			static const char *en[] = {"nul", "date-wrong", "time-wrong", "ms-wrong"};
+			char sig[160];
+			snprintf(sig, sizeof(sig), "dt-cut/%s/%s/%s/behind=%s/%s", fname[f], ikind(x), pkname[pk], bname, en[err]);
+			lv_set(id, sig, "instant %s: the first %zu characters of \"%s\" spell %s, but dt_strp(text, &end, %zu) gives %s",
+			       raw(x), len, buf, raw(want), len, raw(got));
+		}
+	} else if (on != s + len && !(s[len] == 'Z' && on == s + len + 1)) {
+		/* the end handed back is the end of the LEN characters (a Z right behind them may be taken along, as documented in the code) */
+		if (lv_hit(4096 + id)) {
+			char sig[160];
+			snprintf(sig, sizeof(sig), "dt-cut-end/%s/%s/%s/behind=%s/%s", fname[f], ikind(x), pkname[pk], bname,
+				 on == NULL ? "no-end" : on < s + len ? "short" : "beyond");
+			lv_set(4096 + id, sig, "instant %s: dt_strp(\"%s\", &end, %zu) reads %s but hands back the end at offset %td",
+			       raw(x), buf, len, raw(got), on ? on - s : -1);
+		}
+	}
+	free(s);
+}
+
+static void
+chk_cut(echs_instant_t x)
+{
+	char ref[48];
+	bool secres;
+
+	for (int f = 0; f < NFORMS; f++) {
+		echs_instant_t want = x, wd, wf;
+		size_t len, dlen, flen;
+		const char *dot;
+
+		if (f == F_ISO) {
+			dt_strf(ref, 32, x);
+		} else if (f == F_ICAL) {
+			dt_strf_ical(ref, 32, x);
+		} else if (!render(ref, sizeof(ref), x, f, &secres)) {
+			continue;
+		}
+		if ((f == F_ICAL || f == F_ICAL_NOZ) && x.H != ECHS_ALL_DAY) {
+			want.ms = ECHS_ALL_SEC;
+		}
+		len = strlen(ref);
+		/* the whole text with everything behind it */
+		for (int fi = 0; fi < NFOL; fi++) {
+			if (fol_skipped(fol[fi].name)) continue;
+			chk_cut1(f, PK_WHOLE, fi, x, want, ref, len, fol[fi].txt, fol[fi].cls);
+		}
+		if (x.H == ECHS_ALL_DAY) {
+			continue;
+		}
+		/* the date out of the date-time: behind it its own time, then everything else */
+		dlen = ref[4] == '-' ? 10U : 8U;
+		wd = mk(x.y, x.m, x.d, ECHS_ALL_DAY, 0, 0, 0);
+		chk_cut1(f, PK_DATE, 31, x, wd, ref, dlen, ref + dlen, ref[dlen] == 'T' ? "T" : "blank");
+		for (int fi = 0; fi < NFOL; fi++) {
+			if (fol_skipped(fol[fi].name)) continue;
+			chk_cut1(f, PK_DATE, fi, x, wd, ref, dlen, fol[fi].txt, fol[fi].cls);
+		}
+		/* the date-time without its Z */
+		if (ref[len - 1] == 'Z') {
+			chk_cut1(f, PK_NOZ, 31, x, want, ref, len - 1, "Z", "Z");
+		}
+		/* the date-time without its fraction */
+		if ((dot = strchr(ref, '.')) != NULL) {
+			flen = (size_t)(dot - ref);
+			wf = x;
+			wf.ms = ECHS_ALL_SEC;
+			chk_cut1(f, PK_NOFRAC, 31, x, wf, ref, flen, ref + flen, "dot");
+			for (int fi = 0; fi < NFOL; fi++) {
+				if (fol_skipped(fol[fi].name)) continue;
+				chk_cut1(f, PK_NOFRAC, fi, x, wf, ref, flen, fol[fi].txt, fol[fi].cls);
+			}
+		}
+	}
+}
+
+static void
+mode_dt_cut(void)
+{
+	skipfol = vd_opt("skipfol", "");
+	vd_shape("dt-cut");
+	for (int y = Y0; y <= Y1; y++) {
+		for (int m = 1; m <= 12; m++) {
+			if (!vd_next()) continue;
+			vd_desc("every day of %04d-%02d as all-day, 00:00:00, 23:59:59, 12:34:56.789, 00:00:00.000, 23:59:59.999 in %d text forms, "
+				"the text and each complete prefix of it parsed with its exact length while one of %d other texts stands behind it", y, m, NFORMS, NFOL);
+			n_eval = n_nontriv = 0;
+			for (int d = 1; d <= cv_mdays(y, m); d++) {
+				vd_beat();
+				chk_cut(mk(y, m, d, ECHS_ALL_DAY, 0, 0, 0));
+				chk_cut(mk(y, m, d, 0, 0, 0, ECHS_ALL_SEC));
+				chk_cut(mk(y, m, d, 23, 59, 59, ECHS_ALL_SEC));
+				chk_cut(mk(y, m, d, 12, 34, 56, 789));
+				chk_cut(mk(y, m, d, 0, 0, 0, 0));
+				chk_cut(mk(y, m, d, 23, 59, 59, 999));
+			}
+			lv_flush();
+			vd_sh->evals += n_eval;
+			vd_sh->nontriv += n_nontriv;
+			vd_sample("dt-cut: %04d-%02d, %ld (text, length, what stands behind) parsed with dt_strp(text, &end, length)", y, m, n_eval);
 		}
 	}
 }
@@ -697,6 +860,8 @@ enumerate(void)
 		mode_dt();
 	} else if (!strcmp(mode, "dt-times")) {
 		mode_dt_times();
+	} else if (!strcmp(mode, "dt-cut")) {
+		mode_dt_cut();
 	} else if (!strcmp(mode, "range")) {
 		mode_range();
 	} else if (!strcmp(mode, "dur-secs")) {
